@@ -73,6 +73,16 @@ impl Prop for C07 {
             }
             conns.push(conn::build(r, ck, *c, *s, &o));
         }
+        // fault: idle periods longer than a flow TTL (TLS 20 s, HTTP 60 s, uptime 600 s) in the middle of a
+        // connection; the isolated replay happens at the same simulated times, so expiry is the same in both runs
+        if r.chance(1, 5) {
+            let ci = r.usize_below(conns.len());
+            let n = conns[ci].steps.len();
+            if n > 3 {
+                let k = r.urange(2, n - 1);
+                conns[ci].steps[k].dt_ns += *r.pick(&[21_000_000_000u64, 31_000_000_000, 61_000_000_000, 601_000_000_000]);
+            }
+        }
         let lens: Vec<usize> = conns.iter().map(|c| c.steps.len()).collect();
         let order = conn::merge_order(r, &lens, mode);
         Scn { kind, cap: 2 * conns.len() + 4 + r.usize_below(50), conns, order, via_loop: r.chance(1, 4) }
@@ -94,6 +104,9 @@ impl Prop for C07 {
         }
         if s.conns.iter().any(|c| c.kind == ConnKind::Garbage) {
             st.fault("garbage_connection");
+        }
+        if s.conns.iter().any(|c| c.steps.iter().any(|x| x.dt_ns >= 20_000_000_000)) {
+            st.fault("idle_beyond_a_flow_ttl");
         }
         let mut producing = 0;
         for ci in 0..s.conns.len() {
